@@ -1197,6 +1197,10 @@ func (e *Eng) callIsEffectFree(x *ast.CallExpr, a *assignedSet) bool {
 }
 
 func (e *Eng) havocSet(a *assignedSet, st *State) {
+	e.havocGroup(st, func() { e.havocSet1(a, st) })
+}
+
+func (e *Eng) havocSet1(a *assignedSet, st *State) {
 	if a.all {
 		e.havocAll(st)
 	}
@@ -1209,6 +1213,7 @@ func (e *Eng) havocSet(a *assignedSet, st *State) {
 			before[o] = cur
 		}
 	}
+	var havocked []Val
 	for o := range a.vars {
 		vo, ok := o.(*types.Var)
 		if !ok {
@@ -1238,8 +1243,25 @@ func (e *Eng) havocSet(a *assignedSet, st *State) {
 				nv = old
 			}
 			st.vars[o] = nv
+			havocked = append(havocked, nv)
 		}
 	}
+	defer func() {
+		// whatever the forgotten locals refer to exists now (allocation frontier, engine.go)
+		if noFrontier {
+			return
+		}
+		for _, v := range havocked {
+			switch v.K {
+			case KRef:
+				if !isLiteralTerm(v.T) {
+					st.assume("(>= " + v.T + " " + st.front() + ")")
+				}
+			case KSlice:
+				st.assume("(>= " + v.Ref + " " + st.front() + ")")
+			}
+		}
+	}()
 	if !a.all {
 		for o := range a.rows {
 			var v Val
@@ -1268,6 +1290,9 @@ func (e *Eng) havocSet(a *assignedSet, st *State) {
 						newH := st.heap[key]
 						pre := []string{"(>= r 0)"}
 						for _, al := range st.allocs {
+							pre = append(pre, "(= r "+al+")")
+						}
+						for _, al := range st.known {
 							pre = append(pre, "(= r "+al+")")
 						}
 						st.assume(fmt.Sprintf("(forall ((r Int)) (! (=> (and (not (= r %s)) (or %s)) (= (select %s r) (select %s r))) :pattern ((select %s r))))",
